@@ -2340,8 +2340,21 @@ class IndicatorSimplex(Functional):
 
             def _call(self, x, out):
 
-                # projection onto simplex
-                proj_simplex(x, diameter, out)
+                weights = getattr(domain.weighting, 'array', None)
+                if weights is None:
+                    # projection onto simplex
+                    proj_simplex(x, diameter, out)
+                else:
+                    # Projection in the norm with non-constant weights w:
+                    # max(x - tau / w, 0), where the threshold tau is found
+                    # as in [D+2008] after sorting w * x.
+                    x_arr = x.asarray()
+                    wx_sor = (weights * x_arr).ravel()
+                    order = np.argsort(-wx_sor)
+                    tau = ((np.cumsum(x_arr.ravel()[order]) - diameter) /
+                           np.cumsum(1 / np.ravel(weights)[order]))
+                    i = np.argwhere(wx_sor[order] - tau >= 0).flatten().max()
+                    out[:] = np.maximum(x_arr - tau[i] / weights, 0)
 
         return ProximalSimplex
 
@@ -2448,9 +2461,16 @@ class IndicatorSumConstraint(Functional):
 
             def _call(self, x, out):
 
-                offset = 1 / x.size * (sum_value - x.ufuncs.sum())
-                out.assign(x)
-                out += offset
+                weights = getattr(domain.weighting, 'array', None)
+                if weights is None:
+                    offset = 1 / x.size * (sum_value - x.ufuncs.sum())
+                    out.assign(x)
+                    out += offset
+                else:
+                    # Projection in the norm with non-constant weights w:
+                    # x + tau / w with tau such that the sum is sum_value.
+                    tau = (sum_value - x.ufuncs.sum()) / np.sum(1 / weights)
+                    out[:] = x.asarray() + tau / weights
 
         return ProximalSum
 
